@@ -34,36 +34,89 @@ def stripMoved (j : Json) : Json :=
   | Json.obj kvs => Json.obj (kvs.erase "moved")
   | x => x
 
-def handleC14 (op : String) (input impl : Json) : Except String Json := do
-  match op with
-  | "tx" =>
+/-- one operation of a scenario: `commit` / `discard`, with at most one injected fault:
+    `failAt = k ≥ 0` — the (k+1)-th write through the store interfaces fails;
+    `sql` — one SQL statement class of the ref store is made to fail by a trigger (`head-upsert` and
+    `reflog-insert`: the two statements of the logged ref update of branch `on`; `tx-update`: the status
+    flip; `staged-delete`: the delete of the staged ref of branch `on`; `tx-delete`: the delete of the
+    transaction row);
+    `hide` — the staged commit object of that branch is unreadable (command-line scenarios). -/
+structure TxOpJ where
+  kind : String
+  failAt : Int
+  sql : String
+  on : String
+  hide : String
+
+def TxOpJ.healthy (o : TxOpJ) : Bool := o.failAt < 0 && o.sql == "" && o.hide == ""
+
+def txOpOf (o : Json) : Except String TxOpJ := do
+  let str := fun (k : String) => (fldD o k (Json.str "")).getStr?.toOption.getD ""
+  return { kind := ← strFld o "kind", failAt := ← intFld o "failAt",
+           sql := str "sql", on := str "on", hide := str "hide" }
+
+def strsOf (j : Json) (k : String) : List String :=
+  ((fldD j k (Json.arr #[])).getArr?.toOption.getD #[]).toList.filterMap (fun x => x.getStr?.toOption)
+
+/-- Branch order and failing write of a `commit` for the model. The order is the one the
+    implementation took (Go iterates a map): the branches it moved, then the rest. A fault tied to
+    one branch (a failing SQL statement of its ref update, its staged commit unreadable) fires when
+    the loop reaches that branch — if the branch is staged and not yet moved by the transaction —
+    at write `2·(branches moved before it in this run) + w` (`w = 0`: before the commit object is
+    written; `w = 1`: inside the logged ref update, which is one SQL transaction and changes nothing). -/
+def commitPlan (o : TxOpJ) (s : TxSt) (i : Json) : List String × Option Nat :=
+  let movedAfter := strsOf i "moved"
+  let stagedNames := sortStrs (s.staged.map (·.1))
+  let pending := fun (b : String) => s.staged.any (fun p => p.1 == b) && !s.logs.any (fun l => l.branch == b)
+  let std := movedAfter ++ stagedNames.filter (fun b => !movedAfter.contains b)
+  let atBranch := fun (b : String) (w : Nat) =>
+    if pending b then
+      let before := movedAfter.filter (· != b)
+      (before ++ [b] ++ stagedNames.filter (fun x => x != b && !before.contains x),
+       some (2 * (before.filter pending).length + w))
+    else (std, none)
+  if o.failAt ≥ 0 then (std, some o.failAt.toNat)
+  else if o.hide != "" then atBranch o.hide 0
+  else if o.sql == "head-upsert" || o.sql == "reflog-insert" then atBranch o.on 1
+  else if o.sql == "tx-update" then (std, some (2 * (stagedNames.filter pending).length))
+  else (std, none)
+
+/-- Delete order and failing store operation of a `discard` under a fault (`none`: no fault fires) -/
+def discardPlan (o : TxOpJ) (s : TxSt) (i : Json) : Option (List String × Nat) :=
+  let stagedAfter := strsOf i "staged"
+  let stagedNames := sortStrs (s.staged.map (·.1))
+  let std := stagedNames.filter (fun b => !stagedAfter.contains b) ++ stagedNames.filter (fun b => stagedAfter.contains b)
+  if o.failAt ≥ 0 then some (std, o.failAt.toNat)
+  else if o.sql == "staged-delete" then
+    if stagedNames.contains o.on then
+      let gone := stagedNames.filter (fun b => b != o.on && !stagedAfter.contains b)
+      some (gone ++ [o.on] ++ stagedNames.filter (fun b => b != o.on && !gone.contains b), gone.length)
+    else none
+  else if o.sql == "tx-delete" then some (std, stagedNames.length)
+  else none
+
+/-- Model run and property clauses for one transaction scenario. `cli`: the operations were run as
+    `wrgl transaction commit/discard` commands, whose only outcome is success or an error. -/
+def txVerdict (cli : Bool) (input : Json) (istates : List Json) : Except String (Json × Bool × List String) := do
     let heads ← objPairs (fldD input "heads" (Json.mkObj []))
     let staged ← objPairs (fldD input "staged" (Json.mkObj []))
-    let ops ← (← arrFld input "ops").mapM fun o => do
-      return (← strFld o "kind", ← intFld o "failAt")
-    if resClass impl == "panic" then return reply Json.null false ["no-panic"]
-    if resClass impl != "ok" then return reply Json.null false ["unexpected-error"]
-    let istates ← asArr (fldD impl "val" Json.null)
+    let ops ← (← arrFld input "ops").mapM txOpOf
+    let outStr := fun (o : TxOutcome) => if cli && o != .ok then "error" else outcomeStr o
     let init : TxSt := { heads := heads.map (fun p => (p.1, Cid.orig p.2)), staged := staged, logs := [], exists_ := true,
                          committed := false, objects := [] }
     -- run the model; the branch order of each commit is the one the implementation took
     -- (branches already moved, then the rest) — Go iterates a map
-    let rec go (s : TxSt) (os : List (String × Int)) (ist : List Json) (acc : List Json) : List Json :=
+    let rec go (s : TxSt) (os : List TxOpJ) (ist : List Json) (acc : List Json) : List Json :=
       match os, ist with
       | [], _ => acc.reverse
-      | (kind, f) :: rest, i :: irest =>
-        let movedAfter := ((fldD i "moved" (Json.arr #[])).getArr?.toOption.getD #[]).toList.filterMap (fun x => x.getStr?.toOption)
-        let order := movedAfter ++ (sortStrs (s.staged.map (·.1))).filter (fun b => !movedAfter.contains b)
-        let failAt : Option Nat := if f < 0 then none else some f.toNat
-        -- discard under a fault: the staged refs the implementation deleted come first in the order
-        let stagedAfter := ((fldD i "staged" (Json.arr #[])).getArr?.toOption.getD #[]).toList.filterMap (fun x => x.getStr?.toOption)
-        let stagedNames := sortStrs (s.staged.map (·.1))
-        let delOrder := stagedNames.filter (fun b => !stagedAfter.contains b) ++ stagedNames.filter (fun b => stagedAfter.contains b)
-        let (s', o) := if kind == "commit" then txCommit Facts.txCommitGuarded order failAt s
-          else match failAt with
+      | o :: rest, i :: irest =>
+        let (s', oc) := if o.kind == "commit" then
+            let (order, failAt) := commitPlan o s i
+            txCommit Facts.txCommitGuarded order failAt s
+          else match discardPlan o s i with
             | none => txDiscard Facts.txDiscardGuardFirst s
-            | some k => txDiscardFault Facts.txDiscardGuardFirst delOrder k s
-        go s' rest irest (jTxSt s' (outcomeStr o) :: acc)
+            | some (delOrder, k) => txDiscardFault Facts.txDiscardGuardFirst delOrder k s
+        go s' rest irest (jTxSt s' (outStr oc) :: acc)
       | _, [] => acc.reverse
     let mstates := jTxSt init "init" :: go init ops (istates.drop 1) []
     let mj := Json.arr mstates.toArray
@@ -77,6 +130,13 @@ def handleC14 (op : String) (input impl : Json) : Except String Json := do
     let isCommitted := fun (j : Json) => (fldD j "committed" (Json.bool false)).getBool?.toOption.getD false
     let headsOf := fun (j : Json) => (fldD j "heads" Json.null).compress
     let outcomeOf := fun (j : Json) => (fldD j "outcome" Json.null).getStr?.toOption.getD ""
+    let isRefusal := fun (o : String) => if cli then o == "error" else o == "refused"
+    let headPairs := fun (j : Json) => ((fldD j "heads" (Json.arr #[])).getArr?.toOption.getD #[]).toList.filterMap (fun p =>
+      match p.getArr?.toOption.map (·.toList) with
+      | some [Json.str b, Json.str c] => some (b, c)
+      | _ => none)
+    let logCount := fun (j : Json) (b : String) => (fldD (fldD j "logs" (Json.mkObj [])) b (jNat 0)).getNat?.toOption.getD 0
+    let initCid := fun (b : String) => cidStr (init.head b)
     let pairs := istates.zip (istates.drop 1)
     let viol :=
       -- once committed, the heads are exactly the all-branches outcome, each branch logged exactly once
@@ -86,18 +146,52 @@ def handleC14 (op : String) (input impl : Json) : Except String Json := do
            | .ok l => staged.all (fun p => l.any (fun q => q.1 == p.1 && q.2 == 1)) && l.all (fun q => q.2 ≤ 1)
            | .error _ => false)) then [] else ["each-branch-logged-exactly-once"]) ++
       -- a failed commit followed by successful re-runs ends in the all-branches outcome
-      (if ops.any (fun o => o.1 == "commit" && o.2 < 0) && !ops.any (fun o => o.1 == "discard") then
+      (if ops.any (fun o => o.kind == "commit" && o.healthy) && !ops.any (fun o => o.kind == "discard") then
          (if isCommitted final && headsOf final == expHeadsJ.compress then [] else ["rerun-completes-to-all-branches-outcome"]) else []) ++
       -- a refused or successful discard never touches a branch; commit/discard of a committed transaction change nothing
       (if (pairs.zip ops).all (fun ((a, b), o) =>
-          (o.1 != "discard" || headsOf a == headsOf b) &&
+          (o.kind != "discard" || headsOf a == headsOf b) &&
           (!isCommitted a || (stripMoved a |>.setObjVal! "outcome" Json.null).compress == (stripMoved b |>.setObjVal! "outcome" Json.null).compress) &&
-          (!isCommitted a || outcomeOf b == "refused")) then [] else ["discard-never-touches-branches-and-committed-is-final"]) ++
+          (!isCommitted a || isRefusal (outcomeOf b))) then [] else ["discard-never-touches-branches-and-committed-is-final"]) ++
       -- a successful discard of an open transaction removes all staged refs
-      (if (pairs.zip ops).all (fun ((a, b), o) => o.1 != "discard" || isCommitted a || outcomeOf b != "ok" ||
+      (if (pairs.zip ops).all (fun ((a, b), o) => o.kind != "discard" || isCommitted a || outcomeOf b != "ok" ||
           (fldD b "staged" Json.null).compress == "[]") then [] else ["discard-removes-all-staged-refs"]) ++
+      -- at every point a branch is either where it was before the transaction or carries the
+      -- transaction's commit AND the entry in its log that says so (a moved branch without the entry
+      -- is neither "where it was" nor completable: the re-run does not recognise it)
+      (if istates.all (fun s => (headPairs s).all (fun (b, c) => c == initCid b || logCount s b ≥ 1)) then []
+       else ["moved-branch-is-recorded-in-its-log"]) ++
+      -- until a commit of the transaction is attempted, no branch moves
+      (if ((istates.zip (List.range istates.length)).all (fun (s, n) =>
+          (ops.take n).any (fun o => o.kind == "commit") ||
+          (headPairs s).all (fun (b, c) => c == initCid b) && (init.heads.all (fun h => (headPairs s).any (fun q => q.1 == h.1))))) then []
+       else ["uncommitted-transaction-moves-no-branch"]) ++
       (if headsOf (istates.headD Json.null) == initHeadsJ.compress then [] else [])
+    return (mj, agree, viol)
+
+def handleC14 (op : String) (input impl : Json) : Except String Json := do
+  match op with
+  | "tx" =>
+    if resClass impl == "panic" then return reply Json.null false ["no-panic"]
+    if resClass impl != "ok" then return reply Json.null false ["unexpected-error"]
+    let istates ← asArr (fldD impl "val" Json.null)
+    let (mj, agree, viol) ← txVerdict false input istates
     return reply mj agree viol
+  | "tx-cli-stage" =>
+    -- branches created and the transaction staged through `wrgl commit ... --txid` (file given on the
+    -- command line / taken from branch.<name>.file / `--all`), then `wrgl transaction commit/discard`:
+    -- `states[0]` is the repository after staging, `pre` before it
+    if resClass impl == "panic" then return reply Json.null false ["no-panic"]
+    if resClass impl != "ok" then return reply Json.null false ["unexpected-error"]
+    let v := fldD impl "val" Json.null
+    let istates ← asArr (fldD v "states" Json.null)
+    let pre := fldD v "pre" Json.null
+    let (mj, agree, viol) ← txVerdict true input istates
+    let headsOf := fun (j : Json) => (fldD j "heads" Json.null).compress
+    let stageViol :=
+      (if headsOf pre == headsOf (istates.headD Json.null) then [] else ["staging-moves-no-branch"]) ++
+      (if (fldD pre "staged" Json.null).compress == "[]" then [] else ["harness-setup-failed"])
+    return reply mj agree (stageViol ++ viol)
   | "tx-cli" =>
     -- `wrgl transaction commit` failing midway (one staged commit object unreadable), then again with
     -- the object restored: it completes to the all-branches outcome, each branch moved exactly once
